@@ -13,23 +13,40 @@ mkdir -p $V/evidence $V/replays
 sed -i "s|=> /repo\$|=> $R|" $V/go.mod
 trap 'git -C /repo worktree remove --force $R; git -C /repo worktree prune; rm -rf $V' EXIT
 export VERIF_DIR=$V VERIF_REPO=$R
+# the checks worth running depend on where the mutant is (file and line)
 props_for() {
-  case $1 in
-    stack.go) echo C04 C05 C16 C09 C10 C07 C13 C12 C08 C06 C17 ;;
-    merged.go) echo C03 C07 C11 C13 C15 ;;
-    reader.go) echo C02 C01 C03 C11 C18 C14 C15 ;;
-    writer.go) echo C01 C14 C02 C11 C07 C15 ;;
-    block.go) echo C01 C02 C14 C18 C15 ;;
-    record.go) echo C01 C14 C18 C11 C15 ;;
+  f=$1; l=$2
+  case $f in
+    stack.go)
+      if [ $l -lt 130 ]; then echo C04 C05 C16 C10
+      elif [ $l -lt 260 ]; then echo C10 C09 C04 C05
+      elif [ $l -lt 460 ]; then echo C04 C05 C16 C08 C12 C09
+      elif [ $l -lt 630 ]; then echo C07 C13 C04
+      elif [ $l -lt 790 ]; then echo C04 C05 C16 C08 C07
+      elif [ $l -lt 900 ]; then echo C17 C04
+      else echo C16 C06 C05; fi ;;
+    merged.go) echo C03 C07 C11 ;;
+    reader.go)
+      if [ $l -lt 210 ]; then echo C01 C18
+      elif [ $l -lt 360 ]; then echo C01 C02 C18
+      elif [ $l -lt 560 ]; then echo C02 C03 C18
+      else echo C11 C18; fi ;;
+    writer.go) if [ $l -lt 400 ]; then echo C01 C14 C02; else echo C11 C14 C01; fi ;;
+    block.go)
+      if [ $l -lt 160 ]; then echo C01 C14
+      elif [ $l -lt 260 ]; then echo C01 C18
+      else echo C02 C18; fi ;;
+    record.go) echo C01 C18 C14 ;;
     refname.go) echo C12 ;;
-    iter.go) echo C02 C03 C11 C01 ;;
+    iter.go) echo C11 C03 ;;
   esac
 }
 while read -r f i desc; do
   grep -q "^[A-Z-]* $f $i " $OUT/phase2.txt 2>/dev/null && continue
   $SRC/bin/mutate -apply $i $R/$f >/dev/null || continue
   res="UNDETECTED"
-  for p in $(props_for $f); do
+  line=$(echo "$desc" | sed -E 's/^[^:]*:([0-9]+):.*/\1/')
+  for p in $(props_for $f $line); do
     out=$(cd $V && timeout 1500 ./bin/vcheck $p --tier quick 2>&1); code=$?
     if [ $code -eq 1 ]; then res="DETECTED-by-$p"; break; fi
     if [ $code -ne 0 ]; then res="HARNESS-ERROR-in-$p"; echo "$out" | tail -5 > $OUT/harness-$f-$i.txt; break; fi
